@@ -33,7 +33,7 @@ const P = "C17"
 
 func main() {
 	r := evid.New(P, "exploration")
-	r.Rule("plaintext lengths x (round trip, independent secretbox open, every single-bit flip, every truncation, wrong keys); nonce distinctness over repeated encryptions; passphrases x (exact, every single-byte edit/deletion/insertion/case flip, empty, prefix/suffix); parameter blobs x (round trip, every wrong length, every byte edit). A case is non-trivial when it contains at least one rejected mutation; distinct = distinct (kind,length/passphrase) pairs.")
+	r.Rule("plaintext lengths x (round trip, independent secretbox open, every single-bit flip, every truncation, wrong keys); nonce distinctness over repeated encryptions; passphrases x (exact, every single-byte edit/deletion/insertion/case flip, empty, prefix/suffix); parameter blobs x (round trip, every wrong length, every byte edit); a real waddrmgr.Manager: Encrypt/Decrypt of the three key types with every bit flip and truncation, and four private passphrase changes (locked or unlocked) each followed, in the state the change left behind, from the locked state and after reopening, by Unlock with every previous passphrase (newest first), a near miss and the current one (twice). A case is non-trivial when it contains at least one rejected mutation; distinct = distinct (kind,length/passphrase) pairs.")
 	r.Trusted("golang.org/x/crypto/nacl/secretbox (independent open)", "golang.org/x/crypto/scrypt (independent derivation)", "crypto/sha256")
 	r.Assume("scrypt N=16,r=8,p=1 is used for speed; the code path is parameter-independent")
 	rng := rand.New(rand.NewSource(r.Seed))
@@ -454,6 +454,80 @@ func managerCase(r *evid.Run, rg *rand.Rand, cs int64) {
 			}
 			r.Hit("manager_mutations_rejected", rej)
 			r.Case(fmt.Sprintf("mgr/%d/%d", kt, n), rej > 0)
+		}
+	}
+	// the manager's passphrase-derived master key: after every private
+	// passphrase change (done locked or unlocked) ONLY the current passphrase is
+	// accepted, whatever the lock state at the time of the attempt and also
+	// after the manager is reopened (stored parameters round-trip)
+	cur := []byte("priv")
+	var olds [][]byte
+	unlock := func(p []byte) error {
+		return walletdb.View(db, func(tx walletdb.ReadTx) error { return m.Unlock(tx.ReadBucket(ns), append([]byte(nil), p...)) })
+	}
+	for round := 0; round < 4; round++ {
+		next := []byte(fmt.Sprintf("pass-%d-%d", round, rg.Intn(1e6)))
+		whileUnlocked := rg.Intn(2) == 0
+		if whileUnlocked {
+			r.Hit("manager_passphrase_changes_while_unlocked", 1)
+			if err := unlock(cur); err != nil {
+				r.Violation("manager-current-passphrase-rejected", fmt.Sprintf("round %d: Unlock(current) failed: %v", round, err), "manager", cs, nil)
+				return
+			}
+		} else {
+			m.Lock()
+		}
+		err := walletdb.Update(db, func(tx walletdb.ReadWriteTx) error {
+			return m.ChangePassphrase(tx.ReadWriteBucket(ns), cur, next, true, &waddrmgr.FastScryptOptions)
+		})
+		if err != nil {
+			r.Violation("manager-change-passphrase", err.Error(), "manager", cs, nil)
+			return
+		}
+		olds = append(olds, cur)
+		cur = next
+		// attempts in the state the change left behind, then from the locked state, then after reopen
+		for _, state := range []string{"as-left", "locked", "reopened"} {
+			switch state {
+			case "locked":
+				m.Lock()
+			case "reopened":
+				m.Close()
+				err := walletdb.View(db, func(tx walletdb.ReadTx) error {
+					var e error
+					m, e = waddrmgr.Open(tx.ReadBucket(ns), []byte("pub"), params)
+					return e
+				})
+				if err != nil {
+					r.Violation("manager-reopen", err.Error(), "manager", cs, nil)
+					return
+				}
+			}
+			// newest first: a rejected attempt locks the manager, so only the first
+			// attempt of each state really runs in that state
+			for i := len(olds) - 1; i >= 0; i-- {
+				old := olds[i]
+				if err := unlock(old); err == nil {
+					r.Violation("manager-old-passphrase-accepted", fmt.Sprintf("round %d (%s, changed while unlocked=%v): a previous passphrase %q unlocks the manager; current is %q", round, state, whileUnlocked, old, cur), "manager", cs, nil)
+					return
+				}
+				r.Hit("manager_wrong_passphrases_rejected", 1)
+			}
+			near := append(append([]byte(nil), cur...), 'x')
+			if err := unlock(near); err == nil {
+				r.Violation("manager-near-miss-passphrase-accepted", fmt.Sprintf("round %d (%s): %q unlocks, current is %q", round, state, near, cur), "manager", cs, nil)
+				return
+			}
+			if err := unlock(cur); err != nil {
+				r.Violation("manager-current-passphrase-rejected", fmt.Sprintf("round %d (%s, changed while unlocked=%v): Unlock(current passphrase) failed: %v", round, state, whileUnlocked, err), "manager", cs, nil)
+				return
+			}
+			// and once more while already unlocked
+			if err := unlock(cur); err != nil {
+				r.Violation("manager-current-passphrase-rejected", fmt.Sprintf("round %d (%s, second Unlock while unlocked): %v", round, state, err), "manager", cs, nil)
+				return
+			}
+			r.Hit("manager_passphrase_states_checked", 1)
 		}
 	}
 }
